@@ -57,6 +57,13 @@ CHECKS = {
             "virtual clock, faults, cancellation, h2-capable pools against h1 servers.",
             "Liveness is decided as deadlock-freedom in a closed simulated world with a fair fallback scheduler; schedules sampled.",
             "3 C07"),
+    "C09": ("exploration",
+            "model-based stateful testing: Hypothesis-generated operation sequences applied in lock-step to live sync and asyncio pools and to a reference keep-alive model fed by wire observations",
+            "Generated sequences of requests, streaming opens, (partial) closes, clock advances and server-side closes over 1-3 origins for drawn "
+            "max_connections / max_keepalive_connections / keepalive_expiry (incl. 0 and None), HTTP/1.1 and HTTP/2: reuse law, idle count <= "
+            "keep-alive limit after every operation, no stale connection handed out, every close of an idle connection attributable.",
+            "Reference model in vf/props/c09.py; ties within 1 ms of a deadline are not judged; sequential (single caller).",
+            "3 C09"),
     "C10": ("exploration",
             "exhaustive configuration matrix + Hypothesis request histories over near-miss origins; oracle = establishment chain of the pipe that carried each token",
             "All 1080 cells of scheme x port form x proxy mode x http1/http2 x ALPN outcome x sni (sync and async) and sampled sequential "
